@@ -223,8 +223,8 @@ func equals(t types.Type, x, y value) bool {
 		return x == y.(string)
 	case *value:
 		return x == y.(*value)
-	case chan value:
-		return x == y.(chan value)
+	case *schan:
+		return x == y.(*schan)
 	case structure:
 		return x.eq(t, y)
 	case array:
@@ -282,7 +282,7 @@ func hash(outer, t types.Type, x value) int {
 		return hashString(x)
 	case *value:
 		return int(uintptr(unsafe.Pointer(x)))
-	case chan value:
+	case *schan:
 		return 0
 	case structure:
 		return x.hash(t)
@@ -368,8 +368,8 @@ func writeValue(buf *bytes.Buffer, v value) {
 		}
 		buf.WriteString("]")
 
-	case chan value:
-		fmt.Fprintf(buf, "%v", v) // (an address)
+	case *schan:
+		fmt.Fprintf(buf, "chan#%p", v)
 
 	case *value:
 		if v == nil {
